@@ -17,10 +17,9 @@
 //	mmx-overlap         a key that is also the canonical e-mail / name of an entry with another canonical pair, or
 //	                    two keys that differ by case only (outside mm_domb: finding "mailmap-overlap")
 //	mmp-malformed       lines cut, doubled or spliced at random positions, stray "<", ">", "#", lines ending in ">"
-//	                    without "<" (ParseMailmap panics: finding "mailmap-parse-panic")
+//	                    without "<" (ParseMailmap panicked on those before /repo commit 199beb1; now they are skipped)
 //
-// The names mmx- / mmp- are given by construction; what counts is the verdict of the driver (extracted
-// mm_domb, model of ParseMailmap).
+// The name mmx- is given by construction; what counts is the verdict of the driver (extracted mm_domb).
 package main
 
 import (
